@@ -379,3 +379,176 @@ def run(ctx) -> None:  # noqa: F811
                           "transformed as if it were a whole periodic image", key_detail="wholeblock")
     ctx.require(n >= 2, f"R-WHOLEBLOCK found only {n} block-wise Fourier operations in Images")
     _inner_run_c40c(ctx)
+
+
+# ---- added after the mutation sweep (sweepF): the limits the coordinates are built from, the inverse gradient, the
+# ---- axes dropped by the block-wise centre of mass
+_inner_run_c40d = run
+
+
+def _run_deferring(ctx, steps, inner) -> None:
+    """Run the new rule groups, then the earlier rules; an AnalysisError of a new group is raised only afterwards, so
+    that a violation found by any rule decides the run and a lost anchor of one group does not hide the others."""
+    pending = None
+    for step in steps:
+        try:
+            step()
+        except AnalysisError as e:
+            pending = pending or e
+    inner(ctx)
+    if pending is not None:
+        raise pending
+
+
+def _grad_inverse(ctx, repo) -> None:
+    import ast as _ast
+
+    from ..cfg import DataFlow as _DF
+    from ..model import AnalysisError as _AE, call_name as _cn, dotted as _dotted, norm_text as _nt, walk_no_nested as _walk
+    from ..rules.ratfun import Rat, RatFlow
+    from ..terms import PI, Poly as _P
+
+    f = repo.function(MEAS, "_integrate_gradient_2d")
+    df = _DF(f.node)
+    last = lambda c: (_cn(c) or "").split(".")[-1]
+    inv = [c for c in _walk(f.node) if isinstance(c, _ast.Call) and last(c) == "ifft2"]
+    ctx.require(len(inv) == 1 and len(inv[0].args) >= 1, f"{f.qualname}: expected one ifft2 call")
+    st = _stmt_of(f, inv[0])
+    at = df.cfg.node_of(st).idx
+    # the frequency grids: the two results of meshgrid (their pairing with the axes is R-GRADAXES)
+    mg = [s for s in _walk(f.node) if isinstance(s, _ast.Assign) and isinstance(s.value, _ast.Call)
+          and last(s.value) == "meshgrid" and isinstance(s.targets[0], _ast.Tuple) and len(s.targets[0].elts) == 2
+          and all(isinstance(e, _ast.Name) for e in s.targets[0].elts)]
+    ctx.require(len(mg) == 1, f"{f.qualname}: `kx, ky = meshgrid(...)` not found")
+    KX, KY = (e.id for e in mg[0].targets[0].elts)
+    # locals that are a formula plus a zero-frequency guard `v[v == 0] = eps`: inline the formula, judge the guard
+    extra = {}
+    for name in {n.id for n in _ast.walk(f.node) if isinstance(n, _ast.Name)}:
+        rd = df.reaching(at, name)
+        stores = [d for d in rd if d.kind == "store"]
+        strong = [d for d in rd if d.strong and d.kind == "assign"]
+        if not stores or len(strong) != 1 or len(rd) != len(stores) + 1:
+            continue
+        for d in stores:
+            s = df.cfg.nodes[d.node].ast
+            t = s.targets[0] if isinstance(s, _ast.Assign) else None
+            m = t.slice if isinstance(t, _ast.Subscript) else None
+            okform = isinstance(m, _ast.Compare) and len(m.ops) == 1 and isinstance(m.ops[0], (_ast.Eq, _ast.NotEq)) \
+                and {_dotted(m.left), _nt(m.comparators[0])} >= {name} and \
+                any(isinstance(x, _ast.Constant) and x.value == 0 for x in (m.left, m.comparators[0]))
+            val = s.value if isinstance(s, _ast.Assign) else None
+            if not (okform and isinstance(val, _ast.Constant) and isinstance(val.value, (int, float)) and val.value > 0):
+                raise _AE(f"{f.qualname}: `{_nt(s)[:50]}` is not a zero-frequency guard of `{name}`")
+            ctx.check(isinstance(m.ops[0], _ast.Eq), "R-GRADINVERSE", f"{f.qualname}:zero-frequency guard", f.loc(s),
+                      "only the entries that are exactly zero (the zero frequency) are replaced before dividing",
+                      f"`{_nt(s)[:60]}` replaces every entry that is not zero: the squared frequencies are discarded "
+                      "and the zero frequency still divides by zero", key_detail="guard")
+        extra[name] = strong[0].value
+
+    def hook(nz, call):
+        if last(call) == "fft2" and len(call.args) >= 1:
+            a = nz.norm(call.args[0])
+            key = a.key()
+            if a.is_monomial() and key.endswith(".real"):
+                return _P.atom("Ĝx")
+            if a.is_monomial() and key.endswith(".imag"):
+                return _P.atom("Ĝy")
+            raise _AE(f"{f.qualname}: fft2 of `{_nt(call.args[0])[:40]}`, which is neither the real (x) nor the "
+                      "imaginary (y) part of the gradient")
+        return None
+
+    nz = RatFlow(df, at, call_hook=hook)
+    nz.extra = extra
+    nz.no_inline = {KX, KY}
+    that = nz.rat(inv[0].args[0])
+    c = _P.const(2) * _P.atom(PI) * _P.atom("𝑖")
+    phi = _P.atom("Φ̂")
+    got = that.subst({"Ĝx": c * _P.atom(KX) * phi, "Ĝy": c * _P.atom(KY) * phi})
+    ctx.check(got == Rat(phi), "R-GRADINVERSE", f"{f.qualname}:inverse", f.loc(inv[0]),
+              "with Ĝx = 2πi kx Φ̂, Ĝy = 2πi ky Φ̂ the transformed field is Φ̂ at every non-zero frequency",
+              f"for the gradient of a periodic field Φ (Ĝx = 2πi kx Φ̂, Ĝy = 2πi ky Φ̂) the quantity handed to ifft2 is "
+              f"{got.key()[:140]}, not Φ̂: integrating a gradient does not reproduce the generating field",
+              key_detail="identity")
+    # what is returned is the real part of that inverse transform, up to a constant
+    rets = [r for r in _walk(f.node) if isinstance(r, _ast.Return) and r.value is not None]
+    ctx.require(len(rets) == 1, f"{f.qualname}: single return expected")
+    rn = df.cfg.node_of(rets[0]).idx
+    sl = df.backward_slice(rn, rets[0].value)
+    ctx.check(at in sl.def_nodes or rn == at, "R-GRADINVERSE", f"{f.qualname}:result", f.loc(rets[0]),
+              "the returned field derives from the inverse transform",
+              "the returned array does not depend on the inverse transform of the integrated field", key_detail="result")
+    for d in df.reaching(rn, _dotted(rets[0].value) or ""):
+        if d.kind == "aug":
+            s = df.cfg.nodes[d.node].ast
+            scalar = isinstance(s.value, _ast.Call) and last(s.value) in ("min", "max", "mean", "amin", "nanmin") \
+                and not any(k.arg in ("axis", "keepdims") for k in s.value.keywords) or isinstance(s.value, _ast.Constant)
+            ctx.check(isinstance(s.op, (_ast.Sub, _ast.Add)) and scalar, "R-GRADINVERSE", f"{f.qualname}:constant",
+                      f.loc(s), "the result is only shifted by a constant",
+                      f"`{_nt(s)[:60]}` changes the integrated field by more than an additive constant",
+                      key_detail="constant")
+
+
+def _drop_axes(ctx, repo) -> None:
+    import ast as _ast
+
+    from ..cfg import DataFlow as _DF
+    from ..model import kw as _kw, norm_text as _nt, walk_no_nested as _walk
+
+    cm = repo.method(MEAS, DP, "center_of_mass")
+    com = repo.method(MEAS, DP, "_com")
+    df = _DF(cm.node)
+    calls = [c for c in _walk(cm.node) if isinstance(c, _ast.Call) and last_attr(c) == "map_blocks" and c.args
+             and last_attr(c.args[0]) == com.name]
+    ctx.require(len(calls) == 1, f"{cm.qualname}: the block-wise _com call was not found")
+    c = calls[0]
+    da_ = _kw(c, "drop_axis")
+    ctx.require(da_ is not None, f"{cm.qualname}: map_blocks(_com) without drop_axis although _com removes two axes")
+    node = df.cfg.node_of(_stmt_of(cm, c)).idx
+    e, hops = da_, 0
+    while isinstance(e, _ast.Name) and hops < 4:
+        d = df.single_def(node, e.id)
+        if d is None or d.value is None:
+            break
+        e, node, hops = d.value, d.node, hops + 1
+    if isinstance(e, _ast.Call) and last_attr(e) == "tuple" and len(e.args) == 1:
+        e = e.args[0]
+    nz = FlowNormalizer(df, node)
+    nd = nz.norm(ast.parse("len(self.shape)", mode="eval").body)
+    ne = nz.norm(ast.parse("len(self.ensemble_shape)", mode="eval").body)
+    nb = nz.norm(ast.parse("len(self.base_shape)", mode="eval").body)
+    axes = None
+    if isinstance(e, _ast.Call) and last_attr(e) == "range" and len(e.args) == 2:
+        lo, hi = nz.norm(e.args[0]), nz.norm(e.args[1])
+        good = (lo == ne and hi == ne + nb) or (lo == nd - Poly.const(2) and hi == nd) or \
+               (lo == ne and hi == ne + Poly.const(2)) or (lo == ne and hi == nd)
+        axes = f"range({lo.key()}, {hi.key()})"
+    elif isinstance(e, _ast.Tuple) and len(e.elts) == 2:
+        a, b = (nz.norm(x) for x in e.elts)
+        firsts = (ne, nd - Poly.const(2), Poly.const(-2))
+        good = any(a == x and b == x + Poly.const(1) for x in firsts) or any(b == x and a == x + Poly.const(1) for x in firsts)
+        axes = f"({a.key()}, {b.key()})"
+    else:
+        raise AnalysisError(f"{cm.qualname}: drop_axis `{_nt(da_)[:50]}` is not a range or a pair of axes")
+    ctx.check(good, "R-DROPAXES", f"{cm.qualname}:lazy drop_axis", cm.loc(c),
+              "the lazy arm declares the two pattern axes (the ones _com sums over) as dropped",
+              f"the lazy arm declares drop_axis = {axes}; _com sums over the last two axes, which are axes "
+              "len(ensemble_shape) and len(ensemble_shape)+1 of the array: the lazily computed centre of mass is "
+              "assembled with the wrong axes", key_detail="drop")
+
+
+def run(ctx) -> None:  # noqa: F811
+    from ..rules import dplimits
+
+    repo = ctx.repo
+    ctx.rule("R-GRADINVERSE", "_integrate_gradient_2d hands ifft2 a rational function of the transformed gradient "
+             "components and the frequency grids that, for the gradient of a periodic field (Ĝx = 2πi kx Φ̂, Ĝy = 2πi ky "
+             "Φ̂, frequencies in cycles per length as fftfreq gives them), reduces to Φ̂ identically — decided by "
+             "substitution and cross-multiplication; the only other write to the denominator is the guard that replaces "
+             "exact zeros, and after the inverse transform the field is changed by at most an additive constant")
+    ctx.rule("R-DROPAXES", "the block-wise (lazy) centre of mass tells dask that exactly the two pattern axes disappear, "
+             "the axes _com reduces over")
+    ctx.rule("R-LIMITS", dplimits.RULE_TEXT)
+    _run_deferring(ctx, [lambda: dplimits.check_limits(ctx, "R-LIMITS", repo),
+                         lambda: dplimits.check_angular_limits(ctx, "R-LIMITS", repo),
+                         lambda: dplimits.check_angular_coordinates(ctx, "R-LIMITS", repo),
+                         lambda: _grad_inverse(ctx, repo), lambda: _drop_axes(ctx, repo)], _inner_run_c40d)
